@@ -1,6 +1,7 @@
 ------------------------------ MODULE TV_Batch ------------------------------
 (* ndjson: {"tid","kind":"batch","arr":[palette ids],"field","T":[l][m][k][p][3] q12,"single":[l][k] -> [m][p][3] q12,"same":bool,"fin","finT","finS","raised":bool} *)
 (*         {"tid","kind":"linear","cls","field","a","b","obs","obs1","obs2" : [i][3] q12, "fin"}                                              *)
+(*         {"tid","kind":"homog","cls","field","dec","obs","obsd" : [i][3] q12 (obsd in units of 10^dec * gross), "fin"}                      *)
 (*         {"tid","kind":"super","field","whole":[i][3],"parts":[l][i][3],"fin"}                                                              *)
 EXTENDS Batch, TLC, Json, IOUtils
 VARIABLE x
@@ -12,6 +13,8 @@ Verdict(ev) ==
   ELSE IF ~ev.fin THEN <<"-", "NonFinite">>
   ELSE IF ev.kind = "batch" THEN
        (IF ElementIndependence(ev.T, ev.single, ev.same) THEN OK ELSE <<"C06", "ElementIndependence">>)
+  ELSE IF ev.kind = "homog" THEN
+       (IF Homogeneity(ev.obs, ev.obsd, TolRe) THEN OK ELSE <<"C05", "Homogeneity">>)
   ELSE IF ev.kind = "linear" THEN
        (IF Linearity(ev.obs, ev.obs1, ev.obs2, ev.a, ev.b, TolRe) THEN OK ELSE <<"C05", "Linearity">>)
   ELSE (IF Superposition(ev.whole, ev.parts, TolRe) THEN OK ELSE <<"C05", "Superposition">>)
